@@ -120,6 +120,121 @@ func c15RaceJudge(store map[int]*c15Spec, order []c15RaceEv) (map[int]*c15Spec, 
 	return st, "", ""
 }
 
+// c15RaceParams: everything one race case depends on (drawn at random by the stream `race`, enumerated by `race-exhaustive`).
+type c15RaceParams struct {
+	two        bool  // cpu + memory (else cpu only)
+	tree       int   // tree id of every quota
+	deep       bool  // q3 (and q5) hang under a grandparent q6 instead of the root
+	pIsParent  bool  // q3 is marked is-parent
+	pMin       int64 // min of q3
+	pNs        bool  // q3 declares namespace 1
+	xIsParent  bool
+	xMin       int64
+	xUnderRoot bool // q5 hangs off the root even when deep
+	hasKid     bool // q3 already has the child q4 (the delete is then decided before its pod list)
+	targetX    bool // the delete concerns q5 instead of q3
+	variant    int  // the concurrent request, see c15RaceCase
+	childMin   int64
+	childIsPar bool
+	selfMin    int64
+	labelPod   bool // a pod carries the quota-name label of the delete's target
+	otherPods  bool
+	fail       bool // the pod List fails
+	evShape    int  // informer variant: 0 typed object, 1 unstructured
+	probe      int
+}
+
+func c15RaceDraw(r *vRand) c15RaceParams {
+	var p c15RaceParams
+	p.two = r.Bool()
+	if r.Chance(1, 4) {
+		p.tree = 1
+	}
+	p.deep = r.Bool()
+	p.pIsParent = !r.Chance(1, 10)
+	p.pMin = r.Pick([]int64{4000, 6000, 8000})
+	p.pNs = r.Chance(1, 4)
+	p.xIsParent = r.Bool()
+	p.xMin = r.Pick([]int64{0, 1000, 2000})
+	p.xUnderRoot = r.Chance(1, 5)
+	p.hasKid = r.Chance(1, 6)
+	p.targetX = r.Chance(1, 8)
+	p.variant = r.Intn(6)
+	if p.variant == 5 && !p.hasKid {
+		p.variant = r.Intn(3)
+	}
+	if p.variant == 2 && !p.pIsParent {
+		p.variant = 0
+	}
+	p.childMin = r.Pick([]int64{0, 1000, 2000, 2000, 3000, 9000})
+	p.childIsPar = r.Bool()
+	p.selfMin = r.Pick([]int64{3000, 5000})
+	p.labelPod = r.Chance(1, 8)
+	p.otherPods = r.Chance(1, 4)
+	p.fail = r.Chance(1, 20)
+	if r.Chance(1, 4) {
+		p.evShape = 1
+	}
+	p.probe = r.Intn(3)
+	return p
+}
+
+// TestVerifC15RaceExhaustive (thorough tier): every combination of the prefix shape, the delete's target, the concurrent
+// request and the pod environment of the race step.
+func TestVerifC15RaceExhaustive(t *testing.T) {
+	h := vOpen("C15")
+	if h == nil {
+		t.Skip("VERIF_OUT not set")
+	}
+	window := 12 * time.Millisecond
+	if v, err := strconv.Atoi(os.Getenv("VERIF_C15_RACE_WINDOW_MS")); err == nil && v > 0 {
+		window = time.Duration(v) * time.Millisecond
+	}
+	var all []c15RaceParams
+	bools := []bool{false, true}
+	for _, deep := range bools {
+		for _, pIsParent := range []bool{true, false} {
+			for _, xIsParent := range bools {
+				for _, hasKid := range bools {
+					for _, targetX := range bools {
+						for variant := 0; variant < 6; variant++ {
+							if (variant == 5 && !hasKid) || (variant == 2 && !pIsParent) || (hasKid && !pIsParent) {
+								continue
+							}
+							for env := 0; env < 3; env++ {
+								for _, childMin := range []int64{2000, 9000} {
+									if childMin == 9000 && variant != 0 {
+										continue
+									}
+									for probe := 0; probe < 3; probe++ {
+										all = append(all, c15RaceParams{two: variant%2 == 0, deep: deep, pIsParent: pIsParent, pMin: 6000, pNs: env == 1,
+											xIsParent: xIsParent, xMin: 1000, hasKid: hasKid, targetX: targetX, variant: variant, childMin: childMin,
+											childIsPar: probe == 1, selfMin: 3000, labelPod: env == 1, fail: env == 2, evShape: probe % 2, probe: probe})
+									}
+								}
+							}
+						}
+					}
+				}
+			}
+		}
+	}
+	n := vEnvInt("VERIF_N", len(all))
+	if os.Getenv("VERIF_C15_RACE") == "0" {
+		n = 0
+	}
+	for idx := 0; idx < n && idx < len(all); idx++ {
+		if r := h.Begin(idx); r == nil {
+			continue
+		}
+		c15RaceCase(h, all[idx], window)
+		h.End()
+	}
+	h.Close(fmt.Sprintf("EXHAUSTIVE race step: %d cases = grandparent y/n x q3 is-parent y/n x q5 is-parent y/n x q3 has a child y/n x delete of q3 / q5 x 6 concurrent "+
+		"requests (create child under q3 [fitting / too large min], re-parent q5 under q3, informer OnQuotaAdd, re-parent q3 itself, create elsewhere, delete q3's child) x "+
+		"pod environment (none / label pod + namespace / failing List) x 3 probes; non-trivial = the delete reached its pod List and the other request concerns the deleted quota", len(all)))
+}
+
 func TestVerifC15Race(t *testing.T) {
 	h := vOpen("C15")
 	if h == nil {
@@ -138,7 +253,7 @@ func TestVerifC15Race(t *testing.T) {
 		if r == nil {
 			continue
 		}
-		c15RaceCase(h, r, window)
+		c15RaceCase(h, c15RaceDraw(r), window)
 		h.End()
 	}
 	h.Close("one case = a short admitted prefix (optional grandparent q6, parent q3, sibling q5, optional child q4; cpu or cpu+memory, optional tree id, " +
@@ -149,17 +264,13 @@ func TestVerifC15Race(t *testing.T) {
 		"non-trivial = the delete reached its pod List and the other request concerns the deleted quota; distinct by op lines")
 }
 
-func c15RaceCase(h *vHarness, r *vRand, window time.Duration) {
+func c15RaceCase(h *vHarness, pr c15RaceParams, window time.Duration) {
 	base := &c15Client{}
 	cl := &c15RaceClient{c15Client: base, window: window}
 	qt := NewQuotaTopology(cl)
 	store := map[int]*c15Spec{}
 
-	two := r.Bool() // cpu + memory
-	tree := 0
-	if r.Chance(1, 4) {
-		tree = 1
-	}
+	two, tree := pr.two, pr.tree
 	vec := func(a int64) [c15Dims]int64 {
 		v := [c15Dims]int64{a, c15Absent, c15Absent}
 		if two {
@@ -233,22 +344,22 @@ func c15RaceCase(h *vHarness, r *vRand, window time.Duration) {
 	// ---- prefix ----
 	const G, P, K, X, C = 6, 3, 4, 5, 7
 	top := 0
-	if r.Bool() {
+	if pr.deep {
 		top = G
 		seq("add", mk(G, 0, true, 12000))
 	}
-	p := mk(P, top, !r.Chance(1, 10), r.Pick([]int64{4000, 6000, 8000}))
-	if r.Chance(1, 4) {
+	p := mk(P, top, pr.pIsParent, pr.pMin)
+	if pr.pNs {
 		p.ns = []int{1}
 	}
 	seq("add", p)
-	x := mk(X, top, r.Bool(), r.Pick([]int64{0, 1000, 2000}))
-	if r.Chance(1, 5) {
+	x := mk(X, top, pr.xIsParent, pr.xMin)
+	if pr.xUnderRoot {
 		x.parent = 0
 	}
 	seq("add", x)
 	hasKid := false
-	if r.Chance(1, 6) {
+	if pr.hasKid {
 		hasKid = seq("add", mk(K, P, false, 1000))
 	}
 	if failed {
@@ -257,23 +368,23 @@ func c15RaceCase(h *vHarness, r *vRand, window time.Duration) {
 
 	// ---- the race step ----
 	target := P
-	if r.Chance(1, 8) {
+	if pr.targetX {
 		target = X
 	}
-	variant := r.Intn(6)
+	variant := pr.variant
 	if variant == 5 && !hasKid {
-		variant = r.Intn(3)
+		variant = 0
 	}
 	if variant == 2 && !store[P].isParent {
 		variant = 0
 	}
-	childMin := r.Pick([]int64{0, 1000, 2000, 2000, 3000, 9000})
+	childMin := pr.childMin
 	var ev c15RaceEv // the other request
 	informer := false
 	name := "child-add"
 	switch variant {
 	case 0:
-		ev = c15RaceEv{kind: "add", target: C, sp: mk(C, P, r.Bool(), childMin)}
+		ev = c15RaceEv{kind: "add", target: C, sp: mk(C, P, pr.childIsPar, childMin)}
 	case 1:
 		name = "reparent-under"
 		sp := *store[X]
@@ -282,7 +393,7 @@ func c15RaceCase(h *vHarness, r *vRand, window time.Duration) {
 	case 2:
 		name = "informer-add"
 		informer = true // the child was admitted by another replica, so it is a VALID child: q3 is marked is-parent in this variant
-		ev = c15RaceEv{kind: "add", target: C, sp: mk(C, P, r.Bool(), r.Pick([]int64{0, 1000, 2000}))}
+		ev = c15RaceEv{kind: "add", target: C, sp: mk(C, P, pr.childIsPar, childMin%3000)}
 	case 3:
 		name = "self-reparent"
 		sp := *store[P]
@@ -293,13 +404,13 @@ func c15RaceCase(h *vHarness, r *vRand, window time.Duration) {
 			sp.parent = X
 			sp.mn = vec(0)
 		default:
-			sp.mn = vec(r.Pick([]int64{3000, 5000})) // no other parent available: a min change of the quota being deleted
+			sp.mn = vec(pr.selfMin) // no other parent available: a min change of the quota being deleted
 			name = "self-min"
 		}
 		ev = c15RaceEv{kind: "upd", target: P, sp: &sp}
 	case 4:
 		name = "add-elsewhere"
-		ev = c15RaceEv{kind: "add", target: C, sp: mk(C, store[X].parent, r.Bool(), r.Pick([]int64{0, 1000}))}
+		ev = c15RaceEv{kind: "add", target: C, sp: mk(C, store[X].parent, pr.childIsPar, childMin%2000)}
 	case 5:
 		name = "child-delete"
 		ev = c15RaceEv{kind: "del", target: K, sp: store[K]}
@@ -307,13 +418,13 @@ func c15RaceCase(h *vHarness, r *vRand, window time.Duration) {
 	defer func() { cl.nested = nil }()
 	h.Tag("race:variant:" + name)
 	base.pods, base.fail = nil, false
-	if r.Chance(1, 8) {
+	if pr.labelPod {
 		base.pods = append(base.pods, c15Pod{1, 5, target})
 	}
-	if r.Chance(1, 4) {
+	if pr.otherPods {
 		base.pods = append(base.pods, c15Pod{1, 6, target + 1}, c15Pod{0, 0, -1})
 	}
-	base.fail = r.Chance(1, 20)
+	base.fail = pr.fail
 	labelPods := false
 	for _, pd := range base.pods {
 		if pd.label == target {
@@ -326,8 +437,8 @@ func c15RaceCase(h *vHarness, r *vRand, window time.Duration) {
 		}
 	}
 	evShape := 0
-	if informer && c15SchemeRegistered && r.Chance(1, 4) {
-		evShape = 1
+	if informer && c15SchemeRegistered {
+		evShape = pr.evShape
 	}
 	h.Op("racedel %d %s", target, base.envTokens())
 	switch {
@@ -467,7 +578,7 @@ func c15RaceCase(h *vHarness, r *vRand, window time.Duration) {
 		return
 	}
 	// ---- one sequential probe: re-create the deleted quota / hang a child under it / delete it again ----
-	switch r.Intn(3) {
+	switch pr.probe {
 	case 0:
 		if store[P] == nil {
 			seq("add", mk(P, top, true, 4000))
